@@ -352,6 +352,33 @@ def _m_process_cache_provider_traits():
     rp._set_traits = _set_traits
 
 
+def _m_alloc_commit_every_100():
+    # C18/C04: "keep transactions short" - the allocation rows of a large
+    # request are committed in batches of 100; identical below 100 rows
+    from placement.objects import allocation as a
+    import inspect
+    src = inspect.getsource(a._set_allocations)
+    src = src[src.index('def _set_allocations'):]
+    src2 = src.replace(
+        "        res = context.session.execute(ins_stmt)\n"
+        "        alloc.id = res.lastrowid\n",
+        "        res = context.session.execute(ins_stmt)\n"
+        "        alloc.id = res.lastrowid\n"
+        "        _n_done = locals().get('_n_done', 0) + 1\n"
+        "        if _n_done % 100 == 0:\n"
+        "            context.session.commit()\n")
+    assert src2 != src, 'mutant did not apply'
+    ns = {}
+    exec(compile(src2, a.__file__, 'exec'), a.__dict__, ns)
+    inner = ns['_set_allocations']
+    # keep the decorators of the original (writer transaction + retry)
+    import oslo_db.api
+    from placement import db_api
+    a._set_allocations = oslo_db.api.wrap_db_retry(
+        max_retries=5, retry_on_deadlock=True)(
+            db_api.placement_context_manager.writer(inner))
+
+
 MUTANTS = {
     'rp-cas-dropped': _m_rp_cas_dropped,
     'consumer-cas-dropped': _m_consumer_cas_dropped,
@@ -377,6 +404,7 @@ MUTANTS = {
     'rc-id-retry-dropped': _m_rc_id_retry_dropped,
     'rc-next-id-reuses-gap': _m_rc_next_id_reuses_gap,
     'process-cache-provider-traits': _m_process_cache_provider_traits,
+    'alloc-commit-every-100': _m_alloc_commit_every_100,
     'neg-error-text': _m_neg_error_text,
 }
 
@@ -406,6 +434,7 @@ EXPECTED = {
     'rc-id-retry-dropped': ['C19'],
     'rc-next-id-reuses-gap': ['C19'],
     'process-cache-provider-traits': ['C11'],
+    'alloc-commit-every-100': ['C18'],
     'neg-error-text': [],
 }
 
